@@ -209,6 +209,10 @@ def prop_drivers(case, stats):
                 _cmp(res[tag, 'hessian'], r['H'], 'hessian at %s point (graph recorded with %s)' % (tag, rec), stats)
                 res[tag, 'hess_vec'] = guard(cg.hess_vec, x.copy(), v.copy())
                 _cmp(res[tag, 'hess_vec'], r['H'] @ v, 'hess_vec at %s point (graph recorded with %s)' % (tag, rec), stats)
+                # the same driver again at the same point with another direction (nothing may be carried over from the first call)
+                v2 = v[::-1] * 0.5 + 0.25
+                res[tag, 'hess_vec2'] = guard(cg.hess_vec, x.copy(), v2.copy())
+                _cmp(res[tag, 'hess_vec2'], r['H'] @ v2, 'second hess_vec at %s point, other direction (graph recorded with %s)' % (tag, rec), stats)
                 if case['listarg']:
                     g = guard(cg.gradient, [x.copy()])
                     if not isinstance(g, list) or len(g) != 1:
@@ -228,6 +232,9 @@ def prop_drivers(case, stats):
                 if M == N:
                     res[tag, 'vec_hess_vec'] = guard(cg.vec_hess_vec, w.copy(), x.copy(), v.copy())
                     _cmp(res[tag, 'vec_hess_vec'], r['wH'] @ v, 'vec_hess_vec at %s point (graph recorded with %s)' % (tag, rec), stats)
+                    v2 = v[::-1] * 0.5 + 0.25
+                    res[tag, 'vec_hess_vec2'] = guard(cg.vec_hess_vec, w.copy(), x.copy(), v2.copy())
+                    _cmp(res[tag, 'vec_hess_vec2'], r['wH'] @ v2, 'second vec_hess_vec at %s point, other direction (graph recorded with %s)' % (tag, rec), stats)
         if kind == 'vector' and case.get('X') is not None:
             Jt = guard(cg.jacobian, UTPM(case['X'].copy()))
             if not isinstance(Jt, UTPM):
